@@ -20,7 +20,7 @@ VERIF_FAIL = [
     'invariant not satisfied', 'possible arithmetic underflow/overflow', 'possible division by zero',
     'decreases not satisfied', 'could not prove termination', 'possible bit shift underflow/overflow',
     'loop invariant', 'unable to prove', 'assertion failure', 'not satisfied', 'possible',
-    'failed to prove', 'cannot show',
+    'failed to prove', 'cannot show', 'precondition not met',
 ]
 RLIMIT = ['resource limit', 'rlimit', 'timed out', 'timeout']
 
@@ -77,6 +77,11 @@ def trusted_scan(text):
         host = next((f['qual'] for f in fns if f['start'] <= mm.start() < f['end']), '?')
         e = rs.match_close(m, m.index('(', mm.start())) + 1
         tb.append('%s in %s: %s' % (mm.group(1), host, ' '.join(text[mm.start():e].split())[:200]))
+    for mm in re.finditer(r'#\s*\[\s*verifier::external_trait_specification\s*\]', m):
+        e = rs.stmt_end(m, mm.end(), len(m))
+        tb.append('external_trait_specification: ' + ' '.join(text[mm.end():e].split())[:300])
+    for mm in re.finditer(r'\bmacro_rules!\s*(\w+)', m):
+        tb.append('template macro shim: ' + mm.group(1))
     for mm in re.finditer(r'#\s*\[\s*verifier::external_type_specification\s*\]', m):
         e = rs.stmt_end(m, mm.end(), len(m))
         tb.append('external_type_specification: ' + ' '.join(text[mm.end():e].split())[:200])
